@@ -42,7 +42,18 @@ def section9():
     exec(src.split("NOT_YET =")[0], ns)
     CL = ns["CLAIMED"]
     titles = {p["id"]: p["title"] for p in map(json.loads, open(os.path.join(HERE, "properties.jsonl")))}
-    out = ["## 9. As built, per property\n",
+    import glob
+    def _wc(pat):
+        return sum(open(f).read().count("\n") for f in glob.glob(os.path.join(HERE, pat)))
+    n_thm = sum(len(importlib.import_module("harness.props." + p.lower()).THEOREMS) for p in CL)
+    stats = ("Size at the time of generation: model %d lines of core Lean (`Model/`), %d lines generated from the Python source "
+             "(`Gen/`, regenerated every run), %d lines of lemmas and property theorems (`Lemmas/`, `Props/`), %d lines of "
+             "drivers; %d lines of Python harness and translator; **%d named theorems are audited with `#print axioms` across "
+             "the 20 checks on every run**.\n" % (
+                 _wc("lean/SigpyVerif/Model/*.lean"), _wc("lean/SigpyVerif/Gen/*.lean"),
+                 _wc("lean/SigpyVerif/Lemmas/*.lean") + _wc("lean/SigpyVerif/Props/*.lean"), _wc("lean/SigpyVerif/Drv/*.lean"),
+                 _wc("harness/*.py") + _wc("harness/props/*.py") + _wc("harness/translate/*.py"), n_thm))
+    out = ["## 9. As built, per property\n", stats,
            "Generated by `harness/mkdesign.py` from the machinery itself (manifest table, the `THEOREMS` / `LEAN_MODULES` lists "
            "every check audits with `#print axioms` on each run — allowed axioms: propext, Classical.choice, Quot.sound). Where an "
            "entry departs from the plan in §3, this section is the truth. Typical cost on this machine: quick 5–60 s per property, "
